@@ -65,6 +65,29 @@ pub fn small_exhaustive(ctx: &Ctx, rep: &mut Report) {
         });
         rep.merge(r);
     }
+    // multiple negative zeros at small sizes (n = 3..6 needs 4..7 bytes: beyond the exhaustive
+    // range): every subset of positions of an all-zero / small vector gets its sign bits set
+    for n in 2..=6usize {
+        let l = (9 * n + 7) / 8 + 1;
+        let base: Vec<i64> = (0..n).map(|i| if i % 2 == 0 { 0 } else { 3 }).collect();
+        let zeros: Vec<usize> = (0..n).collect();
+        for mask in 1u32..(1 << n) {
+            // encode by hand: sign bit set on the masked positions whose value is zero
+            let mut bits: Vec<bool> = vec![];
+            for (i, &v) in base.iter().enumerate() {
+                let neg = (mask >> i) & 1 == 1 && v == 0;
+                bits.push(neg);
+                for b in (0..7).rev() {
+                    bits.push((v >> b) & 1 == 1);
+                }
+                bits.push(true);
+            }
+            let x = crate::gen::pack(&bits, l);
+            check_decompress(&x, n, rep);
+            rep.count("multi_negative_zero_strings", 1);
+        }
+        let _ = zeros;
+    }
     rep.require("strings_len3", 3 << 24);
     rep.require("dec_accepted", 1000);
     rep.require("dec_rejected", 1000);
